@@ -21,6 +21,40 @@ def split_top_commas(s):
     return [p.strip() for p in parts if p.strip()]
 
 
+def parse_iterable(expr):
+    """recognise iteration over a Vec/slice place; returns dict(base, mut, slice, adaptors) or None"""
+    e = expr.strip()
+    adaptors = []
+    while True:
+        m = re.search(r'\.(take|skip)\(((?:[^()]|\([^()]*\))*)\)$', e)
+        if not m:
+            break
+        adaptors.insert(0, (m.group(1), m.group(2).strip()))
+        e = e[:m.start()]
+    if e.endswith('.iter_mut()'):
+        base, mut = e[:-len('.iter_mut()')], True
+    elif e.endswith('.iter()'):
+        base, mut = e[:-len('.iter()')], False
+    elif e.startswith('&mut '):
+        if adaptors:
+            return None
+        base, mut = e[5:].strip(), True
+    elif e.startswith('&'):
+        if adaptors:
+            return None
+        base, mut = e[1:].strip(), False
+    else:
+        return None
+    sl = None
+    m = re.match(r'^(.*)\[\s*([^\[\]]*?)\s*\.\.\s*([^\[\]=]*?)\s*\]$', base)
+    if m:
+        base = m.group(1)
+        sl = (m.group(2) or None, m.group(3) or None)
+    if not re.match(r'^[\w.\[\]() ]+$', base):
+        return None
+    return {'base': base.strip(), 'mut': mut, 'slice': sl, 'adaptors': adaptors}
+
+
 class Rewriter:
     def __init__(self):
         self.log = []      # (rule, detail)
@@ -127,11 +161,12 @@ class Rewriter:
         return res
 
     def _rewrite_counted(self, text, header_re, build):
-        """Generic helper: find a `for` header matching header_re followed by a block; call
-        build(match, body_inner) -> replacement text for the whole loop."""
+        """Generic helper: find `for` headers matching header_re followed by a block; call
+        build(match, body_inner) -> replacement text for the whole loop (None = leave this loop)."""
+        pos = 0
         while True:
             m = mask(text)
-            mm = re.search(header_re, m)
+            mm = re.compile(header_re).search(m, pos)
             if not mm:
                 return text
             o = m.find('{', mm.end() - 1)
@@ -139,7 +174,12 @@ class Rewriter:
             # re-run the regex on the real text to capture groups with original content
             real = re.match(header_re, text[mm.start():], re.S)
             body = text[o + 1:c]
-            text = text[:mm.start()] + build(real, body) + text[c + 1:]
+            rep = build(real, body)
+            if rep is None:
+                pos = mm.end()
+                continue
+            text = text[:mm.start()] + rep + text[c + 1:]
+            pos = mm.start() + 1
 
     def _with_step(self, body, step):
         conts = self._loop_level_continues(body)
@@ -185,29 +225,51 @@ class Rewriter:
                     return ('let __hi_%s: usize = %s;\n        let mut %s: usize = %s;\n        while %s <= __hi_%s {%s    %s += 1;\n        }' %
                             (i, hi, i, lo, i, i, body, i))
                 text = self._rewrite_counted(text, hdr, build)
-            elif frag.startswith('itermut:'):
-                # R7: for V in EXPR.iter_mut() { B }  /  for V in &mut EXPR { B }
-                hdr = r'\bfor\s+(\w+)\s+in\s+(?:(.+?)\.iter_mut\(\)|&mut\s+(.+?))\s*\{'
+            elif frag.startswith('itermut:') or frag.startswith('iter:'):
+                # R7 / R1': for V in <iterable over a Vec/slice place> { B } -> index loop.
+                # iterable := &[mut] BASE | BASE.iter() | BASE.iter_mut(), BASE may end in a range
+                # slice [lo..hi], and .take(n)/.skip(k) adaptors may follow.
+                want_mut = frag.startswith('itermut:')
+                hdr = r'\bfor\s+(&?)\s*(\w+)\s+in\s+(.+?)\s*\{'
+                done_any = [False]
 
-                def build(mm, body):
-                    v, expr = mm.group(1), (mm.group(2) or mm.group(3)).strip()
-                    self.log.append(('R7', 'for %s in %s (mutable iteration) -> index loop' % (v, expr)))
-                    body2 = re.sub(r'\b%s\b' % re.escape(v), '%s[__i_%s]' % (expr, v), body)
+                def build(mm, body, want_mut=want_mut):
+                    amp, v, expr = mm.group(1), mm.group(2), mm.group(3).strip()
+                    it = parse_iterable(expr)
+                    if it is None or it['mut'] != want_mut:
+                        return None
+                    base = it['base']
+                    self.log.append(('R7' if want_mut else 'R1', 'for %s%s in %s -> index loop over %s' % (amp, v, expr, base)))
+                    pre = ''
+                    lo, hi = '0', None
+                    if it['slice'] is not None:
+                        slo, shi = it['slice']
+                        if shi is not None:
+                            self.n_assert += 1
+                            pre += 'let __a%d = %s <= %s.len(); assert(__a%d);\n        ' % (self.n_assert, shi, base, self.n_assert)
+                            hi = shi
+                        if slo is not None:
+                            self.n_assert += 1
+                            pre += 'let __a%d = %s <= %s; assert(__a%d);\n        ' % (self.n_assert, slo, hi or (base + '.len()'), self.n_assert)
+                            lo = slo
+                    for (ad, arg) in it['adaptors']:
+                        cur_hi = hi or (base + '.len()')
+                        if ad == 'take':
+                            pre += 'let __hi_%s: usize = if (%s) < %s - %s { %s + (%s) } else { %s };\n        ' % (v, arg, cur_hi, lo, lo, arg, cur_hi)
+                            hi = '__hi_%s' % v
+                        else:
+                            pre += 'let __lo_%s: usize = if (%s) < %s - %s { %s + (%s) } else { %s };\n        ' % (v, arg, cur_hi, lo, lo, arg, cur_hi)
+                            lo = '__lo_%s' % v
+                    bound = hi or (base + '.len()')
+                    if want_mut:
+                        body2 = re.sub(r'(?<![\w.])%s\b' % re.escape(v), '%s[__i_%s]' % (base, v), body)
+                        bind = ''
+                    else:
+                        body2 = body
+                        bind = ('\n            let %s = %s[__i_%s];' % (v, base, v)) if amp else ('\n            let %s = &%s[__i_%s];' % (v, base, v))
                     body2 = self._with_step(body2, '__i_%s += 1;' % v)
-                    return ('let mut __i_%s: usize = 0;\n        while __i_%s < %s.len() {%s    __i_%s += 1;\n        }' %
-                            (v, v, expr, body2, v))
-                text = self._rewrite_counted(text, hdr, build)
-            elif frag.startswith('iter:'):
-                # R1': for X in &EXPR { B } / for X in EXPR.iter() { B } -> index loop (no index var in source)
-                hdr = r'\bfor\s+(&?)\s*(\w+)\s+in\s+(?:&\s*(.+?)|(.+?)\.iter\(\))\s*\{'
-
-                def build(mm, body):
-                    amp, x, expr = mm.group(1), mm.group(2), (mm.group(3) or mm.group(4)).strip()
-                    self.log.append(('R1', 'for %s%s in &%s -> index loop' % (amp, x, expr)))
-                    bind = ('let %s = %s[__i_%s];' % (x, expr, x)) if amp else ('let %s = &%s[__i_%s];' % (x, expr, x))
-                    body = self._with_step(body, '__i_%s += 1;' % x)
-                    return ('let mut __i_%s: usize = 0;\n        while __i_%s < %s.len() {\n            %s%s    __i_%s += 1;\n        }' %
-                            (x, x, expr, bind, body, x))
+                    return ('%slet mut __i_%s: usize = %s;\n        while __i_%s < %s {%s%s    __i_%s += 1;\n        }' %
+                            (pre, v, lo, v, bound, bind, body2, v))
                 text = self._rewrite_counted(text, hdr, build)
             else:
                 raise SrcError('unknown loop rule ' + frag)
